@@ -338,10 +338,9 @@ class Real:
             m.clear()
             return "ok"
         if op == "checkrange":
-            lo, hi = dec(self.mode, tok[2]), dec(self.mode, tok[3])
+            lo, hi = dec(self.mode, tok[2]), dec(self.mode, tok[3])   # already widened by the float allowance
             v = getattr(m, tok[1]).detach().reshape(-1)
-            eps = TOL * max(1.0, abs(lo), abs(hi))
-            return "in" if bool(((v >= lo - eps) & (v <= hi + eps)).all()) else "out"
+            return "in" if bool(((v >= lo) & (v <= hi)).all()) else "out"
         if op == "checksharp":
             mx, mn = dec(self.mode, tok[2]), dec(self.mode, tok[3])
             cur, prev = getattr(m, tok[1]).detach().reshape(-1), self.prev[tok[1]]
@@ -746,6 +745,13 @@ def directed_cases():
     ]
 
 
+def widened(mode, mn, mx):
+    """[min, max] widened by the float allowance 1e-12 * max(1, |min|, |max|); both sides of the
+    comparison (real float64 parameter, driver's Rat / Float parameter) are tested against it."""
+    eps = Fraction(1, 10 ** 12) * max(1, abs(mn), abs(mx))
+    return f"{enc(mode, mn - eps)} {enc(mode, mx + eps)}"
+
+
 def range_history(rng, fam, halves, nupd=200):
     """200 updates with reduced magnitudes <= 1 (scaled: <= range); the parameter must stay in [min, max]"""
     mode = "F" if fam == "spower" else "Q"
@@ -795,8 +801,8 @@ def range_history(rng, fam, halves, nupd=200):
         if rng.random() < 0.85:
             lines.append("update T")
         else:
-            lines += [f"updatesome {p} F", f"checkrange {p} {e(mn)} {e(mx)}", "clear"]
-        lines.append(f"checkrange {p} {e(mn)} {e(mx)}")
+            lines += [f"updatesome {p} F", f"checkrange {p} {widened(mode, mn, mx)}", "clear"]
+        lines.append(f"checkrange {p} {widened(mode, mn, mx)}")
         if it % 25 == 24:
             lines.append("dump")
     lines.append("dump")
@@ -867,9 +873,9 @@ def explore(ctx) -> Exploration:
     corpus = corpus_cases()
     directed = directed_cases()
     exh = exhaustive_cases(rng)
-    nrand = 260 if not thorough else 2500
+    nrand = 600 if not thorough else 8000
     rnd = [random_case(rng) for _ in range(nrand)] + [random_case(rng, big=True) for _ in range(nrand // 10)]
-    nh = 1 if not thorough else 5
+    nh = 2 if not thorough else 12
     hist = []
     for _ in range(nh):
         for fam in ("mult", "smult", "spower"):
